@@ -393,10 +393,13 @@ class Vector():
 				) from exc
 
 		# Now decide dtype using the *logical* type, not the callable
-		if isinstance(py_target_type, type):
+		if isinstance(py_target_type, type) and all(x is None for x in out):
+			# nothing to type (empty / all None): the requested type is all there is
 			new_dtype = DataType(py_target_type, nullable=has_none)
 		else:
-			# user gave a weird callable as target_type, infer from result
+			# typed by the library's own rule applied to the converted values: a subclass of a
+			# builtin kind (an IntEnum, a str subclass) counts as that kind, as in inference
+			# and assignment; a callable target has no type to go by anyway
 			new_dtype = infer_dtype(out)
 
 		return Vector(tuple(out), dtype=new_dtype, name=self._name, as_row=self._display_as_row)
